@@ -149,7 +149,12 @@ func canonValue(sb *strings.Builder, v reflect.Value, seen map[uintptr]bool, sna
 			canonValue(&vb, iter.Value(), seen, snap, depth+1)
 			kvs = append(kvs, kv{kb.String(), vb.String()})
 		}
-		sort.Slice(kvs, func(i, j int) bool { return kvs[i].k < kvs[j].k })
+		sort.Slice(kvs, func(i, j int) bool {
+			if kvs[i].k != kvs[j].k {
+				return kvs[i].k < kvs[j].k
+			}
+			return kvs[i].v < kvs[j].v // keys of different types can render alike
+		})
 		sb.WriteString("{")
 		for i, e := range kvs {
 			if i > 0 {
